@@ -87,6 +87,15 @@ reg("C19", "models", "structural monitor on map_nested_value / iter_nested_value
     "Generated nested values over all supported containers and dataclass flavours are mapped by the real function; an "
     "independent canonicaliser compares types/shape/leaves, and the leaves logged by map equal those yielded by iter.",
     "Exact container types only.")
+reg("C24", "models", "history + executable set-of-pairs model over the real backend tag operations and the CLI",
+    "All bounded histories (exhaustive to a length bound, random to length 30) of add/update/rm are applied to the real "
+    "backend as the tag commands do; current tags are compared with the model after every operation, the edit graph "
+    "is audited for cycles and orphaned superseded tags; a slice runs through RedunClient.execute on a file database.",
+    "Current tags compared as sets of pairs.")
+reg("C37", "models", "invariant at a hook on TaskRegistry.add/rename + model-based define/redefine/wrap driver",
+    "The registry invariant is asserted after every registry mutation in exhaustive and random op sequences on a "
+    "private registry (real @task / wraps_task) and on the global registry during scheduler workloads.",
+    "Invariant stated on the hashes stored on held Task objects.")
 
 
 def build():
